@@ -367,7 +367,8 @@ def run_axil(scn):
     nops = sum(len(o) for o in scn["ops"])
     bench = Bench(wrap_top(m), max_cycles=nops * (t + 16) + 300, tail=8, fingerprint=False)
     dec = lambda a: adec(a, ns)  # noqa
-    mag = [bench.add(AXILMaster(mb, scn["ops"][i], name="m%d" % i, max_out=1, single_target=dec)) for i, mb in enumerate(masters)]
+    mag = [bench.add(AXILMaster(mb, scn["ops"][i], name="m%d" % i, max_out=1, single_target=dec, w_lead=(1 if p.get("w_first") else 0)))
+           for i, mb in enumerate(masters)]
     sag = []
     for i, sb in enumerate(slaves):
         sc = scn["slaves"][i]
@@ -406,6 +407,9 @@ def run_axil(scn):
                 if resp != 2 or data != 0xffffffff:
                     V("wrong_error_value", "m%d.r" % mi, "read %#x not accepted by any slave returned data=%#x resp=%d (expected all ones, SLVERR)" % (op["addr"], data, resp), tr)
         for k, (tb, resp) in enumerate(ma.log["b"]):
+            if k >= len(ma.writes):
+                V("spurious_response", "m%d.b" % mi, "write response #%d at cycle %d: the master issued only %d writes" % (k, tb, len(ma.writes)), tb)
+                break
             op = ma.writes[k]
             d = dec(op["addr"])
             t_aw = ma.log["aw"][k][0]
@@ -578,6 +582,8 @@ def run_waittimer(scn):
 
 def known_match(scn, v):
     p = scn.get("params", {})
+    if p.get("w_first"):
+        return "C11-F3"
     if p.get("kind") == "crossbar" and v["cls"] == "bus_hung":
         fam = scn.get("family", "wb")
         return "C11-F1" if fam.startswith("wb") else ("C11-F1c" if fam == "axi" else "C11-F1b")
